@@ -36,8 +36,20 @@ pub struct RunResult {
 pub fn execute(cfg: &Cfg, steps: &[Step], known: &[String]) -> (Option<Stop>, Stats, u64) {
     let mut sim = Sim::new(cfg.clone(), known.to_vec());
     let mut stop = None;
+    let verbose = std::env::var("OPSIM_VERBOSE").is_ok();
     for s in steps {
-        if let Err(e) = sim.exec(s) {
+        let r = sim.exec(s);
+        if verbose {
+            eprintln!("step {}: {}", sim.step_no, serde_json::to_string(s).unwrap());
+            let a = sim.arena.borrow();
+            for (h, m) in &sim.model {
+                if let Some(st) = a.get(*h) {
+                    let c = crate::observe::canon(st, false);
+                    eprintln!("    h{} {:?}{}: {}", h, m.fam, if m.residue { " (residue)" } else { "" }, c[2]);
+                }
+            }
+        }
+        if let Err(e) = r {
             stop = Some(e);
             break;
         }
